@@ -43,7 +43,7 @@ const (
 var KindNames = [NumKinds]string{"sched", "schedU", "gap", "select", "timeskip", "drop", "dup", "delay", "seg", "coalesce", "rand", "gen", "fault", "prio", "stall"}
 
 // NumProbes is the number of rare-condition counters a run carries (names are owned by sim/net and the harness).
-const NumProbes = 64
+const NumProbes = 96
 
 // Probes owned by the simulator itself; harness probes start at PUser.
 const (
